@@ -151,6 +151,7 @@ def verify_one(key):
     t0 = time.time()
     n0 = len(ctx.obligations)
     q0 = dict(prover.STATS)
+    q0['by_backend'] = dict(prover.STATS['by_backend'])
     try:
         rep = ctx.verify_function(ctx.registry.contracts[key])
         err = None
@@ -325,6 +326,11 @@ def main():
         f = known_match(name)
         if f is not None:
             known_hits.append((f, name))
+            continue
+        if ':vacuity:' in name:
+            # the check itself would be vacuous (contradictory precondition, no live path, contradictory callee post-condition):
+            # neither a pass nor a violation of the property
+            checker_failures.append('%s: %s' % (name, (insts[0].get('detail') or '')[:200]))
             continue
         fn = insts[0]['func']
         rp = {'property': pid, 'obligation': name, 'function': None, 'sidecar': None, 'scenario': None,
